@@ -401,14 +401,41 @@ def _kind(it):
         return "array"
     if (("f", "@a"), ("f", "@slice")) in it or (("f", "@a"), ("f", "@kind")) in it or (("f", "@a"), ("f", "@n")) in it:
         return "chain"
+    if (("f", "start"),) in it and it[(("f", "start"),)][0] in ("int", "term"):
+        return "range" if (("f", "end"),) in it else "rangefrom"
+    if tree_leaf(it)[0] == "term" and not any(p and p[0][0] == "f" and str(p[0][1]).startswith("@") for p in it):
+        return "symbolic"
     return None
 
 
-def _known(call, st, addr, depth=0):
+def _effectful(call, st, addr, depth=0):
+    """some closure of the pipeline stored at addr has side effects (it is not a pure predicate / projection)"""
+    if depth > 5:
+        return False
+    it = st.read_tree(addr[0], addr[1])
+    f = it.get((("f", "@f"),))
+    if f and f[0] == "closure":
+        cb = call.interp.prog.bodies.get(f[1])
+        if cb is not None and not call.interp._closure_is_pure(cb):
+            return True
+    for name in ("@inner", "@a", "@b"):
+        if any(p and p[0] == ("f", name) for p in it):
+            if _effectful(call, st, (addr[0], addr[1] + (("f", name),)), depth + 1):
+                return True
+    return False
+
+
+def _known(call, st, addr, depth=0, sym_ok=False):
     if depth > 4:
         return False
     it = st.read_tree(addr[0], addr[1])
     k = _kind(it)
+    if k == "symbolic":
+        return sym_ok and depth > 0        # only below an adaptor: a bare unknown iterator keeps its default treatment
+    if k == "rangefrom":
+        return True
+    if k == "range":
+        return True
     if k == "slice":
         sl = it.get((("f", "@slice"),))
         if not sl or sl[0] != "ref":
@@ -433,18 +460,18 @@ def _known(call, st, addr, depth=0):
         i, n = it.get((("f", "@idx"),)), it.get((("f", "@n"),))
         return bool(i and n and i[0] == "int" and n[0] == "int" and n[1] <= MAX_ITEMS)
     if k == "chain":
-        return _known(call, st, (addr[0], addr[1] + (("f", "@a"),)), depth + 1) and _known(call, st, (addr[0], addr[1] + (("f", "@b"),)), depth + 1)
+        return _known(call, st, (addr[0], addr[1] + (("f", "@a"),)), depth + 1, sym_ok) and _known(call, st, (addr[0], addr[1] + (("f", "@b"),)), depth + 1, sym_ok)
     if k in ("filter", "map", "take_while", "skip_while", "inspect", "filter_map"):
         f = it.get((("f", "@f"),))
-        return bool(f and f[0] in ("closure", "fn")) and _known(call, st, (addr[0], addr[1] + (("f", "@inner"),)), depth + 1)
+        return bool(f and f[0] in ("closure", "fn")) and _known(call, st, (addr[0], addr[1] + (("f", "@inner"),)), depth + 1, sym_ok)
     if k in ("enumerate", "copied", "take", "skip"):
         if k in ("take", "skip"):
             n = it.get((("f", "@left"),))
             if not n or n[0] != "int":
                 return False
-        return _known(call, st, (addr[0], addr[1] + (("f", "@inner"),)), depth + 1)
+        return _known(call, st, (addr[0], addr[1] + (("f", "@inner"),)), depth + 1, sym_ok)
     if k == "zip":
-        return _known(call, st, (addr[0], addr[1] + (("f", "@a"),)), depth + 1) and _known(call, st, (addr[0], addr[1] + (("f", "@b"),)), depth + 1)
+        return _known(call, st, (addr[0], addr[1] + (("f", "@a"),)), depth + 1, sym_ok) and _known(call, st, (addr[0], addr[1] + (("f", "@b"),)), depth + 1, sym_ok)
     return False
 
 
@@ -499,6 +526,38 @@ def _next(call, st, addr, k):
             return k(st, None)
         st.write_leaf(addr[0], addr[1] + (("f", "@idx"),), ("int", i[1] + 1))
         return k(st, subtree(it, (("f", "#%d" % i[1]),)))
+    if kind == "symbolic":
+        # a sequence of unknown length: unrolled like a loop over it would be, up to the interpreter's loop bound
+        cnt = it.get((("f", "@taken"),), ("int", 0))[1]
+        if cnt > interp.loop_bound:
+            from .interp import Outcome
+            return [Outcome("cut", st, info="iterator of unknown length beyond the unrolling bound (%s)" % call.fr.body.short)]
+        src = tree_leaf(it)
+        atom = ("call", "Iterator::next", call.fr.body.id, call.fr.bb, cnt, src)
+        out = []
+        ns = st.clone()
+        ns.facts[("discr", atom)] = ("var", frozenset(["None"]))
+        out.extend(k(ns, None))
+        st.facts[("discr", atom)] = ("var", frozenset(["Some"]))
+        st.write_leaf(addr[0], addr[1] + (("f", "@taken"),), ("int", cnt + 1))
+        from .interp import mkproj
+        out.extend(k(st, leaf_tree(("term", mkproj(atom, (("v", "Some"), ("f", "0")))))))
+        return out
+    if kind == "rangefrom":
+        cur = it[(("f", "start"),)]
+        st.write_leaf(addr[0], addr[1] + (("f", "start"),), interp.arith(st, "Add", cur, ("int", 1), "usize"))
+        return k(st, leaf_tree(cur))
+    if kind == "range":
+        cur, end = it[(("f", "start"),)], it[(("f", "end"),)]
+        more = interp.cmp_leaves(st, "Lt", cur, end, "usize")
+        out = []
+        for s2, b in _bool_cases(interp, st, more):
+            if b:
+                s2.write_leaf(addr[0], addr[1] + (("f", "start"),), interp.arith(s2, "Add", cur, ("int", 1), "usize"))
+                out.extend(k(s2, leaf_tree(cur)))
+            else:
+                out.extend(k(s2, None))
+        return out
     if kind == "chain":
         def after_a(st_, item):
             if item is not None:
@@ -595,7 +654,15 @@ def _adaptor(kind, with_fn=False, with_n=False):
         src = call.args[0]
         if _kind(src) is None:
             return NotImplemented
-        out = {(): TOP, (("f", "@kind"),): ("named", kind)}
+        ident = TOP
+        if _kind(src) == "symbolic" or tree_leaf(src)[0] == "term":
+            # over a sequence of unknown length the adaptor keeps the identity an uninterpreted call would have had
+            keys = tuple(call.arg_key(a) for a in call.args)
+            if TOP not in keys:
+                ident = ("term", ("app", call.path or ("Iterator::" + kind)) + keys)
+            else:
+                return NotImplemented
+        out = {(): ident, (("f", "@kind"),): ("named", kind)}
         for pth, l in src.items():
             out[(("f", "@inner"),) + pth] = l
         if with_fn:
@@ -624,7 +691,13 @@ def ax_iter_zip(call):
     a, b = call.args[0], call.args[1]
     if _kind(a) is None or _kind(b) is None:
         return NotImplemented
-    out = {(): TOP, (("f", "@kind"),): ("named", "zip")}
+    ident = TOP
+    if "symbolic" in (_kind(a), _kind(b)) or "term" in (tree_leaf(a)[0], tree_leaf(b)[0]):
+        keys = tuple(call.arg_key(x) for x in call.args)
+        if TOP in keys:
+            return NotImplemented
+        ident = ("term", ("app", call.path or "Iterator::zip") + keys)
+    out = {(): ident, (("f", "@kind"),): ("named", "zip")}
     for half, t in (("@a", a), ("@b", b)):
         for pth, l in t.items():
             out[(("f", half),) + pth] = l
@@ -640,14 +713,22 @@ def _iter_at(call, st, tree, tag):
         root = ("T", call.fr.uid, call.fr.bb, tag)
         st.write_tree(root, (), tree)
         addr = (root, ())
-    if addr is None or not _known(call, st, addr):
+    if addr is None:
+        return None
+    eff = _effectful(call, st, addr)
+    if not eff and len(call.args) >= 2:
+        fl = tree_leaf(call.args[-1])
+        if fl[0] == "closure":
+            cb = call.interp.prog.bodies.get(fl[1])
+            eff = cb is not None and not call.interp._closure_is_pure(cb)
+    if not _known(call, st, addr, sym_ok=eff):
         return None
     return addr
 
 
 def _adaptor_next(call):
     addr = call.deref_addr(call.args[0])
-    if addr is None or not _known(call, call.st, addr):
+    if addr is None or not _known(call, call.st, addr, sym_ok=_effectful(call, call.st, addr)):
         return NotImplemented
     return _next(call, call.st, addr,
                  lambda st, item: _ret_on(call, st, mk_variant("None") if item is None else mk_variant("Some", item)))
@@ -856,3 +937,128 @@ def ax_int_from_bool(call):
     for st, b in _bool_cases(call.interp, call.st, tree_leaf(call.args[0])):
         _ext(res, _ret_on(call, st, leaf_tree(("int", 1 if b else 0))))
     return res
+
+
+# ------------------------------------------------------------------------------ checked arithmetic
+
+def _checked(op):
+    def ax(call):
+        I = call.interp
+        a, b = tree_leaf(call.args[0]), tree_leaf(call.args[1])
+        if a[0] not in ("int", "term") or b[0] not in ("int", "term"):
+            return NotImplemented
+        ty = (call.path or "").split("<impl ")[-1].split(">")[0] if "<impl " in (call.path or "") else "usize"
+        res = []
+        if op == "Sub":
+            under = I.cmp_leaves(call.st, "Lt", a, b, ty)        # a < b: None
+            for st, bad in _bool_cases(I, call.st, under):
+                if bad:
+                    _ext(res, _ret_on(call, st, mk_variant("None")))
+                else:
+                    _ext(res, _ret_on(call, st, mk_variant("Some", leaf_tree(I.arith(st, "Sub", a, b, ty)))))
+            return res
+        return NotImplemented
+    return ax
+
+
+for _t in ("usize", "u64", "u32", "u16", "u8"):
+    AXIOMS["<impl %s>::checked_sub" % _t] = _checked("Sub")
+    AXIOM_DOC["<impl %s>::checked_sub" % _t] = "a < b -> None; otherwise Some(a - b)"
+
+
+AXIOMS["Iterator::next"] = _adaptor_next
+AXIOM_DOC["Iterator::next"] = "next element of a (generically typed) iterator when its value is a small concrete sequence"
+
+
+# ------------------------------------------------------------------------------ windows
+
+@axiom("<impl [T]>::windows", doc="iterator over all contiguous windows of the given length")
+def ax_slice_windows(call):
+    l = tree_leaf(call.args[0])
+    size = tree_leaf(call.args[1])
+    key = call.arg_key(call.args[0])
+    if l[0] != "ref" or size[0] != "int" or size[1] < 1 or key == TOP:
+        return NotImplemented
+    return call.ret({(): ("term", ("app", "<impl [T]>::windows", key, size)), (("f", "@wslice"),): l, (("f", "@wsize"),): size})
+
+
+def _windows_position(call):
+    """position over the windows of a slice with a call-free predicate: None, or Some(P) with P + size <= len and the
+    predicate true of the window that starts at P"""
+    from .axioms import _pure_predicate_closure, _slice_len
+    it = call.deref(call.args[0])
+    sl, size = it.get((("f", "@wslice"),)), it.get((("f", "@wsize"),))
+    cl = tree_leaf(call.args[1])
+    ident = tree_leaf(it)
+    if not sl or sl[0] != "ref" or not size or ident[0] != "term" or not _pure_predicate_closure(call.interp.prog, cl):
+        return NotImplemented
+    interp = call.interp
+    n = interp.len_of(call.st, sl)
+    P = ("term", ("app", "Iterator::position", ident, cl))
+    res = []
+    ns = call.st.clone()
+    _ext(res, _ret_on(call, ns, mk_variant("None")))
+    st = call.st
+    last = P if size[1] == 1 else interp.arith(st, "Add", P, ("int", size[1] - 1), "usize")
+    if interp.assume(st, ("lt", last, n), True) is False:
+        return res
+    st.facts.setdefault(P[1], ("iv", ((0, (1 << 62)),)))
+    # the window: a sub-slice object of the searched slice starting at P
+    base_key = call.arg_key(leaf_tree(sl))
+    wroot = ("SL", call.fr.uid, call.fr.bb, "win")
+    ident_w = ("term", ("app", "slice", base_key, ("agg", (((("f", "start"),), P),)))) if base_key != TOP else TOP
+    st.write_tree(wroot, (), {(): ident_w, (("$len",),): size})
+
+    def decided(s2, ret):
+        l = tree_leaf(ret)
+        if l == ("int", 0):
+            return []
+        if l[0] == "term" and interp.assume(s2, l[1], True) is False:
+            return []
+        return _ret_on(call, s2, mk_variant("Some", leaf_tree(P)))
+    f = _store_fn(call, st, call.args[1], "fn")
+    _ext(res, _call_at(call, st, f, [leaf_tree(("ref", wroot, ()))], decided))
+    return res
+
+
+_prev_position = AXIOMS.get("Iterator::position")
+
+
+def _position_dispatch(call):
+    it = call.deref(call.args[0])
+    if (("f", "@wslice"),) in it:
+        return _windows_position(call)
+    return _prev_position(call) if _prev_position else NotImplemented
+
+
+AXIOMS["Iterator::position"] = _position_dispatch
+AXIOMS["<Windows<'a, T> as Iterator>::position"] = _windows_position
+
+
+# ------------------------------------------------------------------------------ arithmetic through references (`*a + 1` written `a + 1`)
+
+def _ref_arith(op):
+    def ax(call):
+        I, st = call.interp, call.st
+        a, b = tree_leaf(call.deref(call.args[0])), tree_leaf(call.deref(call.args[1]))
+        if a[0] not in ("int", "term") or b[0] not in ("int", "term"):
+            return NotImplemented
+        res = I.arith(st, op, a, b, "usize")
+        if op == "Add":
+            if res[0] == "int":
+                ok = res[1] <= (1 << 64) - 1
+            else:
+                ok = I.decide(st, ("addovf", a, b)) is False
+            I.obligation(st, call.fr, ok, "%s + %s does not overflow" % (I.describe_leaf(a), I.describe_leaf(b)))
+        else:
+            ok = I.decide_le(st, b, a)
+            I.obligation(st, call.fr, ok, "%s - %s does not underflow" % (I.describe_leaf(a), I.describe_leaf(b)))
+        return call.ret_leaf(res)
+    return ax
+
+
+for _a, _b in (("&usize", "usize"), ("usize", "&usize"), ("&usize", "&usize"), ("&'a usize", "usize"), ("usize", "&'a usize"), ("&'a usize", "&'a usize")):
+    for _tr, _op in (("Add", "Add"), ("Sub", "Sub")):
+        _n = "<%s as %s<%s>>::%s" % (_a, _tr, _b, _tr.lower())
+        AXIOMS[_n] = _ref_arith(_op)
+        AXIOM_DOC[_n] = "integer %s through references; overflow is an obligation" % _tr.lower()
